@@ -799,6 +799,7 @@ class Depths:
         self.m = mock
         self.p = 0
         self.o = 0
+        self.hit_empty = False      # a stack was popped while empty (Lean: the marker Prim.hitEmpty)
 
     def start(self):
         self.o += self.m["startPushesStdout"]
@@ -806,6 +807,8 @@ class Depths:
 
     def stop_patches(self):
         """-> True when the call raises"""
+        if self.p == 0:
+            self.hit_empty = True
         if self.p == 0 and self.m["stopPatchesEmptyRaises"]:
             return True
         self.p = max(0, self.p - 1)
@@ -816,6 +819,8 @@ class Depths:
             if self.stop_patches():
                 return True
         for _ in range(max(0, self.m["stopPopsStdout"])):
+            if self.o == 0:
+                self.hit_empty = True
             if self.o == 0 and self.m["popStdoutEmptyRaises"]:
                 return True
             self.o = max(0, self.o - 1)
